@@ -4,6 +4,7 @@ line_profiler.LineProfiler and kernprof.ContextualProfile.
 
 A body table is `table[state][column] = action`:
   columns: 0 = resumed by a sent value, 1.. = resumed by a thrown exception of THROWN[column-1]
+           (a row may be shorter: a missing column means re-raise)
   actions: ['Y', k, echo, next]  yield  k (+ sent value if echo), continue in state `next`
            ['R', k, echo]        return k (+ sent value if echo)      (async generators: bare return)
            ['X', e]              raise EXC[e]()
@@ -22,9 +23,18 @@ import warnings
 
 from harness.drivers.common import read_payload, emit
 
+import asyncio
+
+
+class Signal(BaseException):
+    """a user-defined control-flow exception deriving from BaseException, not from Exception"""
+
+
 EXC = {1: ValueError, 2: KeyError, 3: GeneratorExit, 4: StopIteration, 5: RuntimeError,
-       6: TypeError, 7: StopAsyncIteration, 8: ZeroDivisionError}
-THROWN = [1, 2, 3, 4, 7]          # column c+1 handles a throw of THROWN[c]
+       6: TypeError, 7: StopAsyncIteration, 8: ZeroDivisionError,
+       # BaseException subclasses that are not Exception
+       9: KeyboardInterrupt, 10: SystemExit, 11: asyncio.CancelledError, 12: Signal}
+THROWN = [1, 2, 3, 4, 7, 9, 10, 11, 12]          # column c+1 handles a throw of THROWN[c]
 OTHER = 99
 
 
@@ -63,7 +73,7 @@ class Susp:
 
 def _action(table, s, r, val):
     c = col(r, val)
-    if c is None:
+    if c is None or c >= len(table[s]):
         return ['RR']
     return table[s][c]
 
